@@ -8,6 +8,8 @@ package latch
 
 // a holder is never overwritten by another holder: a slot key passes from one lock to the next only through nil
 //@ field node.value transition C17: old == nil || new == nil || old == new
+// a node is unlinked from a slot's list (its predecessor's next pointer skips it) only while nobody holds its key
+//@ field node.next transition C17: old == nil || new == old || old.value == nil
 // the published commit timestamp of a key never decreases
 //@ field node.maxCommitTS transition C17: new >= old
 // staleness is sticky
@@ -70,6 +72,8 @@ package latch
 //@   prop C17
 //@   bytes: key
 //@   may-panic
+//@   modifies-also Latches.owed of latches
+//@   postulate owes: latches.owed == (old(latches.owed) || result != nil)
 //@   requires lock != nil && 0 < lock.acquiredCount && lock.acquiredCount <= len(lock.requiredSlots) && len(lock.keys) == len(lock.requiredSlots)
 //@   requires forall i int :: 0 <= i && i < len(lock.requiredSlots) ==> 0 <= lock.requiredSlots[i] && lock.requiredSlots[i] < len(latches.slots)
 //@   requires notqueued: forall s *latch, i int :: 0 <= i && i < len(s.waiting) ==> s.waiting[i] != lock && s.waiting[i] != nil
@@ -88,3 +92,21 @@ package latch
 // (release, the loop around releaseSlot, is not under contract: carrying releaseSlot's precondition "the releasing lock is
 // queued nowhere and queues hold no nil" through the loop needs an ownership invariant over all slots' queue arrays; its
 // stores are still checked against the field-transition invariants above.)
+
+// recycle (called with the slot's mutex held) unlinks only nodes nobody holds (checked by the transition invariant of
+// node.next) and keeps the list's length counter in step with the unlinked nodes.
+//@ func (*latch) recycle
+//@   prop C17
+//@   requires held(ref(l.Mutex))
+//@   loop 1 invariant l1: held(ref(l.Mutex)) && total >= 0
+//@   loop 1 invariant link: prev != nil && prev.next == curr
+
+// Ghost: Latches.owed - a release has produced a waiter to wake up that has not been handed to the scheduler's wakeup yet
+// (set where releaseSlot returns a waiter). Only the scheduler goroutine releases: UnLock hands the lock over on the
+// unlock channel and never releases in place - a release whose wake-up list nobody processes is a lost wake-up.
+//@ ghost field Latches.owed bool
+//@ func (*LatchesScheduler) UnLock
+//@   prop C17
+//@   bytes: key
+//@   may-panic
+//@   ensures nolost: scheduler.latches.owed == old(scheduler.latches.owed)
